@@ -117,6 +117,15 @@ class Gen:
         r = self.r
         v6 = r.random() < 0.3
         samples, types, size = [], [], 0
+        if r.random() < 0.08:
+            # many short samples of unsupported types (8 octets of header, 0 or 4 of data), then ordinary ones
+            for _ in range(r.randrange(4, 12)):
+                tag = r.choice([[0, 0, 0, 3], [0, 0, 0, 0], [0, 0, 0, 7], [0, 1, 16, 1], [0, 0, 16, 2]])
+                fmt = (tag[2] % 16) * 256 + tag[3] if tag[:2] == [0, 0] and tag[2] < 16 else -1
+                s0 = self.xrec(tag, self.octets(r.choice([0, 0, 4])))
+                samples.append(s0)
+                types.append(fmt)
+                size += len(s0)
         for _ in range(r.choice([0, 1, 1, 2, 3, 4, 6])):
             t, s = self.sample()
             if size + len(s) > budget and samples:
